@@ -488,7 +488,13 @@ class World:
         ic.add_instance(inst)
         self.instances[name] = inst
         if activate:
-            await inst.activate('10.0.0.%d' % (len(self.instances) + 1), self.now_ms())
+            # live VMs never share an address (the fake worker endpoint resolves the instance by it); after a driver restart the
+            # table of tracked instances shrinks, so count upwards past every address in use
+            used = {i.ip_address for i in self.instances.values()}
+            n = len(self.instances) + 1
+            while '10.0.%d.%d' % (n // 250, 1 + n % 250) in used:
+                n += 1
+            await inst.activate('10.0.%d.%d' % (n // 250, 1 + n % 250), self.now_ms())
         return inst
 
 
